@@ -106,7 +106,7 @@ pub fn jj_scalar(k: &BigUint) -> mc::Fr {
     mc::Fr::from_bytes(&arr(&big::to_le(k, 32))).unwrap()
 }
 pub fn k_fp_fe(x: &mc::k256::Fp) -> FE {
-    vec![big::from_be(x.to_bytes().as_slice())]
+    vec![big::from_be(&x.to_bytes()[..])]
 }
 pub fn k_fe_fp(f: &FE) -> mc::k256::Fp {
     mc::k256::Fp::from_bytes(&k256::FieldBytes::from(arr::<32>(&big::to_be(&f[0], 32)))).unwrap()
@@ -180,7 +180,7 @@ macro_rules! prime_affine_ops {
                 ($to_m)(a)
             }
             fn a_to_curve(a: &$A) -> Self::G {
-                (*a).into()
+                PrimeCurveAffine::to_curve(a)
             }
             fn a_identity() -> $A {
                 <$A as PrimeCurveAffine>::identity()
@@ -960,6 +960,7 @@ fn main() {
     cx.assume("the binding subject -> model goes through to_affine() and the public coordinate accessors (BLS: x()/y() + Fp::to_bytes_le; BN254: public fields + Fq::to_bytes; Jubjub: get_u()/get_v(); secp256k1: x()/y(); Curve25519: Curve25519Affine::x()/y()); each is cross-checked per alphabet point against the bytes of an encoding and, where raw projective coordinates are public, against X/Z^2,Y/Z^3 (blst) resp. X/Z,Y/Z (derive-macro curves)");
     cx.assume("field arithmetic of the subject is out of scope here (other checks); the model uses num-bigint with moduli and curve constants taken from the standards, not from the subject");
     cx.assume("a checked decoder owes subgroup membership where its documentation or its trait says so: BLS12-381 compressed and uncompressed (group::UncompressedEncoding documents only the *_unchecked variant as skipping the subgroup check; SerdeObject::read_raw reports 'not in subgroup'), JubjubSubgroup, BN254 G2 (implements PrimeGroup / PrimeCurveAffine). Jubjub extended/affine, Curve25519 and the raw BN254 formats promise on-curve + canonical only");
+    cx.assume("subgroup membership of decoder inputs (and integer multiples of points outside the prime subgroup) are computed with an inversion-free Jacobian / projective big-integer ladder; the group `model-self-check` validates it against the affine law on 3 random points x 11 scalars per curve in every run, and the first 48 verdicts that blame the subject on that basis are re-derived with the affine law");
     cx.assume("seeded representatives come from VERIF_SEED; the enumeration over the alphabets is complete");
     cx.assume("hash_to_curve, multi_exp / MSM and pairings belong to other properties and are not exercised here");
 
@@ -1033,7 +1034,7 @@ fn main() {
         cx.run_cases(&g, &keyed, |(k, t)| {
             let t0 = std::time::Instant::now();
             let out = t();
-            if timing && t0.elapsed().as_secs_f64() > 0.5 {
+            if timing && t0.elapsed().as_secs_f64() > 0.05 {
                 eprintln!("TIMING {k} {:.2}s evals={}", t0.elapsed().as_secs_f64(), out.evals);
             }
             out
